@@ -132,7 +132,7 @@ def search(ctx, broken):
     for emu, w, h, b, cls in corpus:
         cases.append('c09inv %d 0 %d %d %s' % (emu, w, h, tg.hx(b))); meta.append(('corpus', emu, cls, None))
     # 2. exhaustive token sequences
-    deep = ctx.thorough or ctx.escalated
+    deep = ctx.thorough          # the 3-token enumeration is too long for an escalated run (budget ~5 min)
     exh = []
     for emu in (0, 1, 2, 3, 4):
         for (w, h) in ([(80, 25), (4, 3)] if emu == 0 else [(80, 25)]):
